@@ -105,10 +105,13 @@ Definition transcript_phase_ok (mb : member) : bool :=
   | None => false
   end.
 
+(** [rounds < 64] is tested first and the power is taken in [N]: the model must stay cheap to run on
+    hostile round counts (conjunctions are strict under vm_compute, conditionals are not) *)
 Definition rounds_ok (mb : member) : bool :=
   let rounds := length (p_li (mb_proof mb)) in
-  Nat.eqb (length (p_li (mb_proof mb))) (length (p_ri (mb_proof mb)))
-  && Nat.ltb rounds 64 && Nat.eqb (2 ^ rounds) (mb_N mb).
+  if negb (Nat.eqb (length (p_li (mb_proof mb))) (length (p_ri (mb_proof mb)))) then false
+  else if negb (Nat.ltb rounds 64) then false
+  else (2 ^ N.of_nat rounds =? N.of_nat (mb_N mb))%N.
 
 Definition vproof_of (p : proof) : vproof K := mkVproof K (map ofN (p_d1 p)) (ofN (p_r1 p)) (ofN (p_s1 p)).
 
